@@ -29,7 +29,9 @@ ASSUMPTIONS = [
     "a failing oracle case is KNOWN only if the implementation's answer equals the Lean model's answer on it and the observed "
     "result is exactly the listed symptom; anything else inside a known class is a VIOLATION",
 ]
-RULE = ("partial texts built from a KNOWN set of fields (20 shapes: time only, month only, month+year, weekday only, weekday+time, "
+RULE_SENTENCES = ("sentence stream: 17 templates x boundary datetimes x 0-5 filler words in front x 0-4 behind (words accepted by the Lean "
+                  "predicate PM.fillerWord), 10 defaults; ")
+RULE = RULE_SENTENCES + ("partial texts built from a KNOWN set of fields (20 shapes: time only, month only, month+year, weekday only, weekday+time, "
         "weekday+month, h/m/s units, MM/DD, day only, full date ...) x 10 defaults incl. day 29/30/31, Feb 29, 0001-01-01, "
         "9999-12-31 x 38 zone texts x 12 tzinfos forms x 9 TZ settings x fuzzy fillers; distinct = distinct (text, options, TZ); "
         "non-trivial = a datetime was returned and compared with the specification")
@@ -187,6 +189,78 @@ def sentence(rng, text, parts=None):
 
 
 TZ_NAMED = ["UTC+3", "GMT-2", "UTC0", "XXX0UTC,M3.5.0,M10.5.0"]     # zones CALLED UTC / GMT by a POSIX string, at any offset
+
+
+SENTENCE_WORDS = sorted({w for f in G.FILLER for w in f.split()} | {
+    "Today", "meeting", "approximately", "sharp", "exactly", "hello", "World", "Zulu", "x", "ok", "inf", "nan", "infinity", "EST", "at",
+    "on", "T", "am", "Monday", "of", "and", "Sept", "h", "UTC", "z", "a", "pm", "around", "room", "Date", "ABCDEF", "mon", "sec"})
+
+
+def oracle_sentences(ctx, rng, year_now):
+    """'Fuzzy parsing of a sentence containing one date returns that date; fuzzy_with_tokens returns the same datetime together
+    with the skipped text in order' — on the class the sentence theorems are about (C15.sentence_templates_have_theorems): filler
+    words the LEAN predicate PM.fillerWord accepts (parser.filler op), each followed by a space; one rendering of a template in
+    PT.sentenceTemplates (parser.sentences op); filler words, each after a space.  The Lean text of every sentence
+    (parser.sentence op) is compared with the oracle's; then on the implementation: fuzzy = fuzzy_with_tokens[0] = the strict parse
+    of the rendering alone, and the tokens, read one after the other, start with the words in front, end with the words behind and
+    are a subsequence of the sentence."""
+    ids = [i for i in ctx.driver(["parser.sentences"])[0][3:].split(",") if i in G.T]
+    flags = ctx.driver(["parser.filler " + ";".join(L.cps(w) for w in SENTENCE_WORDS)])[0][3:]
+    fill = [w for w, f in zip(SENTENCE_WORDS, flags) if f == "1"]
+    ctx.hist["sentence_templates"] = ", ".join(ids)
+    ctx.hist["sentence_filler_words_accepted"] = " ".join(fill)
+    ctx.hist["sentence_filler_words_rejected_by_the_class"] = " ".join(w for w, f in zip(SENTENCE_WORDS, flags) if f != "1")
+    if not ids or len(fill) < 5:
+        ctx.mismatch("parser.sentences", "sentence class", "ids=%d filler=%d" % (len(ids), len(fill)), "expected 17 ids and a non-trivial class")
+        return
+    cases = []
+    for _ in range(ctx.budget(700, 7000)):
+        t = G.T[rng.choice(ids)]
+        d = G.boundary_dt(rng, rng.randint(year_now - 50, year_now + 49) if t['yy'] else None)
+        if t['ydec'] and d.year < 100:
+            continue                                    # the month-name theorems need year >= 100 (D-C02-monthname-century)
+        lead = [rng.choice(fill) for _ in range(rng.choice([0, 0, 1, 2, 3, 5]))]
+        trail = [rng.choice(fill) for _ in range(rng.choice([0, 1, 1, 2, 4]))]
+        cases.append((t, d, lead, trail))
+    lean = ctx.driver(["parser.sentence %s [%d,%d,%d,%d,%d,%d,%d] %s %s" % (
+        t['name'], d.year, d.month, d.day, d.hour, d.minute, d.second, d.microsecond,
+        ";".join(L.cps(w) for w in lead) or "-", ";".join(L.cps(w) for w in trail) or "-") for t, d, lead, trail in cases])
+    for (t, d, lead, trail), lt in zip(cases, lean):
+        inner = G.render(t, d, None)
+        front = "".join(w + " " for w in lead); back = "".join(" " + w for w in trail)
+        text = front + inner + back
+        if lt != "ok " + L.cps(text):
+            ctx.mismatch("parser.sentence", {"template": t['name'], "datetime": d.isoformat(), "lead": lead, "trail": trail}, L.cps(text), lt)
+            continue
+        dflt = rng.choice(G.DEFAULTS)
+        kw = dict(default=dflt, dayfirst=t['flags'].get('dayfirst'), yearfirst=t['flags'].get('yearfirst'))
+        strict, _, _ = L.run_impl(L.Call(inner, **kw))
+        fz, _, _ = L.run_impl(L.Call(text, fuzzy=True, **kw))
+        ft, _, rt = L.run_impl(L.Call(text, fwt=True, **kw), raw=True)
+        ctx.case(("sentence", t['name'], text, dflt.isoformat()), nontrivial=strict.startswith("ok "))
+        ctx.count("sentence_cases")
+        ctx.count("sentence_lead_%d_trail_%d" % (min(len(lead), 3), min(len(trail), 3)))
+        case = L.Call(text, fuzzy=True, **kw).describe()
+        case.update({"template": t['name'], "date": inner, "lead": lead, "trail": trail})
+        if not strict.startswith("ok "):
+            ctx.violation("the rendering alone must parse (C02)", case, {"strict": strict})
+            continue
+        if fz != strict:
+            ctx.violation("fuzzy parse of a sentence containing one date must return that date", case, {"date": inner, "strict": strict, "fuzzy": fz})
+        if not ft.startswith("ok ") or ft.split(" | ")[:2] != strict.split(" | ")[:2]:
+            ctx.violation("fuzzy_with_tokens must return the same datetime as the date alone", case, {"strict": strict, "with_tokens": ft})
+            continue
+        joined = "".join(rt[1])
+        pos, sub = 0, True
+        for ch in joined:
+            j = text.find(ch, pos)
+            if j < 0:
+                sub = False
+                break
+            pos = j + 1
+        if not (joined.startswith(front) and joined.endswith(back) and sub):
+            ctx.violation("fuzzy_with_tokens: the skipped text (every filler word, in order) must come back", case,
+                          {"tokens": list(rt[1]), "front": front, "back": back})
 
 
 def correspondence(ctx):
@@ -461,6 +535,9 @@ def oracle(ctx):
         ctx.sample({"text": "Feb (default 2001-01-31)", "impl": L.run_impl(L.Call("Feb", default=datetime.datetime(2001, 1, 31)))[0]})
         ctx.sample({"text": "10:00 GMT+3", "impl": L.run_impl(L.Call("10:00 GMT+3"))[0]})
         ctx.sample({"text": "Friday (default 2003-09-25, a Thursday)", "impl": L.run_impl(L.Call("Friday"))[0]})
+        # a sentence containing one date, on the class of the sentence theorems
+        L.set_tz("UTC")
+        oracle_sentences(ctx, ctx.subrng("sentences"), L.model_pivot(P._parser.DEFAULTPARSER.info)[0])
         # the two-digit-year pivot the model is given comes from the process clock (review3b F8)
         L.set_tz("UTC")
         L.pivot_oracle(ctx)
